@@ -299,10 +299,21 @@ def s14_free(decls):
             return kinds[e[1]] == "int"
         return all(all_const(x) for x in e[1:] if isinstance(x, tuple))
 
+    def all_const(e):
+        k = e[0]
+        if k == "int":
+            return True
+        if k == "var":
+            return kinds[e[1]] == "int"
+        return all(all_const(x) for x in e[1:] if isinstance(x, tuple))
+
     def ok(e):
         if not isinstance(e, tuple):
             return True
         if e[0] == "bin" and is_int(e[2]) and not is_int(e[3]) and not simple(e[2]):
+            return False
+        if e[0] == "cond" and all_const(e[1]):
+            # a constant condition folds `c : v` to an implicitly typed constant (S14 family)
             return False
         return all(ok(x) for x in e[1:])
 
